@@ -352,7 +352,7 @@ def _entry(draw, step=False):
     e = {
         "used": used, "branch_arg": branch_arg, "method": method, "pore": pore, "meniscus": meniscus,
         "kelvin": kelvin, "kelvin_c": draw(st.floats(0.05, 5.0)), "thickness": draw(_thickness),
-        "loading": draw(st.sampled_from(["volume_liquid", "molar"])), "ads": draw(_ads),
+        "loading": draw(st.sampled_from(["volume_liquid", "molar", "volume_liquid", "molar", "mass", "volume_gas"])), "ads": draw(_ads),
     }
     kind = "none" if step else draw(st.sampled_from(["default", "default", "none", "window", "window", "window",
                                                      "free"]))
@@ -458,11 +458,31 @@ def _run_entry(e, ctx):
             pressure += [k / GRID for k in reversed(legs["des"]["k"])]
             loading += list(reversed(legs["des"]["v"]))
             branch += [True] * len(legs["des"]["k"])
-        molar = e["loading"] == "molar"
+        # the stored loading representation; factor = cm3 of liquid per stored unit (the adsorbed LIQUID volume is what the
+        # methods work on, whatever the isotherm is stored in)
+        lbasis = e["loading"]
+        if lbasis == "volume_gas":
+            if registry:
+                from CoolProp.CoolProp import PropsSI
+                fl = K.get_adsorbate(e["ads"]["name"]).properties["backend_name"]
+                rho_gas_molar = PropsSI("Dmolar", "T", T, "Q", 1, fl) / 1e6  # mol/cm3
+            else:
+                # user-defined adsorbate: the vapour density is another user-supplied constant
+                rho_gas_molar = 4.0e-5
+                next(x for x in ADSORBATE_LIST if x.name == _CUSTOM_ADS).properties.update(
+                    gas_molar_density=rho_gas_molar, gas_density=rho_gas_molar * M)
+            to_liquid, lunit = rho_gas_molar * M / rho, "cm3"  # cm3 vapour -> mol -> g -> cm3 liquid
+        elif lbasis == "molar":
+            to_liquid, lunit = M / rho / 1000.0, "mmol"  # mmol/g * g/mol / (g/cm3) / 1000 = cm3/g
+        elif lbasis == "mass":
+            to_liquid, lunit = 1.0 / rho / 1000.0, "mg"
+        else:
+            to_liquid, lunit = 1.0, "cm3"
+        molar = False
         iso = pygaps.PointIsotherm(
             pressure=pressure, loading=loading, branch=branch, material="verif-c16-material", adsorbate=name,
             temperature=T, pressure_mode="relative", pressure_unit=None,
-            loading_basis="molar" if molar else "volume_liquid", loading_unit="mmol" if molar else "cm3",
+            loading_basis=lbasis, loading_unit=lunit,
             material_basis="mass", material_unit="g", temperature_unit="K")
 
         branch_used = e["branch_arg"] or "des"  # documented default
@@ -470,8 +490,7 @@ def _run_entry(e, ctx):
             raise HarnessError("descriptor inconsistent: branch")
         p_all = np.array(e["leg"]["k"], dtype=float) / GRID
         v_all = np.array(e["leg"]["v"], dtype=float)
-        if molar:
-            v_all = v_all * M / rho / 1000.0  # mmol/g * g/mol / (g/cm3) / 1000 = cm3/g
+        v_all = v_all * to_liquid
         lim = (0.1, 0.99) if e["limits"] == "default" else tuple(e["limits"])
         sel = np.ones(len(p_all), dtype=bool)
         if lim[0]:
